@@ -1,5 +1,5 @@
 """C13 -- projective / Jacobian formulas equal the affine law on every control path."""
-from .. import curvemachine, grouptrace
+from .. import coordbig, curvemachine, grouptrace
 from . import c07
 
 
@@ -23,3 +23,5 @@ def run(ctx):
     # spec -> code: TLC-generated programs; projective / Jacobian representatives are carried from step to step as
     # the code produced them, the abstraction of every register must stay the spec's affine point
     curvemachine.run_machine(ctx)
+    # full size, in coordinates: projective / Jacobian outputs abstracted and checked against the affine law (BigNat)
+    coordbig.coord_tables(ctx, only_opt=True)
